@@ -130,3 +130,45 @@ add("C18",
         if "EBLIF.names" in categories.keys():
             self.compose_names(categories["EBLIF.names"])"""), None),
     )
+
+# ---------------------------------------------------------------- third wave
+add("C03",
+    Mutant("B5 the original identifier of a property is read, not removed (seeded C03-w3B)",
+           (EP, """        if original_identifier_prefix in self.elements[-1]:
+            original_identifier = self.elements[-1].pop(original_identifier_prefix)
+            property_["original_identifier"] = original_identifier
+""", """        original_identifier = self.elements[-1].get(original_identifier_prefix)
+        if original_identifier is not None:
+            property_["original_identifier"] = original_identifier
+"""), "B5|spydrnet/parsers/edif/parser.py:EdifParser.parse_property_like_element|get"),
+    Mutant("B5 the port identifier of a portRef is read by subscript",
+           (EP, 'port_identifier = self.elements[-1].pop("EDIF.portRef.identifier")', 'port_identifier = self.elements[-1]["EDIF.portRef.identifier"]'),
+           "B5|spydrnet/parsers/edif/parser.py:EdifParser.parse_portRef|subscript"),
+)
+add("C04",
+    Mutant("B6' the right-hand side of an assign takes its low bound from the left-hand wires (seeded C04-w3A)",
+           (V, "        li = self._index_of_wire_in_cable(in_wires[0])", "        li = self._index_of_wire_in_cable(out_wires[0])"),
+           "B6'|spydrnet/composers/verilog/composer.py:Composer._write_assignment|foreign-wire|in_cables[0]"),
+    Mutant("B6' the left-hand side of an assign takes its high bound from the right-hand wires",
+           (V, "        hi = self._index_of_wire_in_cable(out_wires[-1])", "        hi = self._index_of_wire_in_cable(in_wires[-1])"),
+           "B6'|spydrnet/composers/verilog/composer.py:Composer._write_assignment|foreign-wire|out_cables[0]"),
+    Mutant("B6' concatenations use the raw position of a wire (seeded C04-w3C)",
+           (V, "                index = self._index_of_wire_in_cable(w)\n                if w.cable.name == previous_cable.name:",
+            "                index = w.cable.wires.index(w)\n                if w.cable.name == previous_cable.name:"),
+           "B6'|spydrnet/composers/verilog/composer.py:Composer._write_concatenation|raw-position"),
+    Mutant("B6' twin: bounds computed inline",
+           (V, """        hi = self._index_of_wire_in_cable(in_wires[-1])
+        li = self._index_of_wire_in_cable(in_wires[0])
+        self._write_bundle_with_indicies(in_cables[0], li, hi)""", """        self._write_bundle_with_indicies(
+            in_cables[0], self._index_of_wire_in_cable(in_wires[0]), self._index_of_wire_in_cable(in_wires[-1])
+        )"""), None),
+)
+add("C18",
+    Mutant("B7 the second operand of .conn is indexed with the first operand's bit (seeded C18-w3B)",
+           (BP, "        wire_two = cable_two.wires[index_two]", "        wire_two = cable_two.wires[index_one]"),
+           "B7|spydrnet/parsers/eblif/eblif_parser.py:EBLIFParser.get_connected_wires|cable_two.wires grown for index_two"),
+    Mutant("B7 a port pin is read one past the bit it was grown for",
+           (BP, "            while len(port.pins) < index + 1:\n                port.create_pin()\n            pin = port.pins[index]\n            self.connect_pin_to_wire(pin, port_name, index)",
+            "            while len(port.pins) < index + 1:\n                port.create_pin()\n            pin = port.pins[index - 1]\n            self.connect_pin_to_wire(pin, port_name, index)"),
+           "B7|"),
+)
